@@ -1,22 +1,18 @@
-(* C19 — input validation of the exported graph / model classes.
-
-   [input] abstracts exactly what the validators of /repo/flowpaths look at.  For each class X
-     in_domain_X : input -> bool      the class's DOCUMENTED domain (what property C19 lists)
-     validate_X  : input -> outcome   transcription of the code path constructor + solve(), checks
-                                      in the order in which the code performs them.
-   Nothing is proved here (see ValidateProofs.v).  The validators are hand-written summaries of
-   the Python code; what ties them to the code is the malformed-stream correspondence
-   (harness/engines/c19.py).  The model follows /repo/flowpaths at 65c87ad (after the repairs listed in ValidateOld.v,
-   which keeps the model of the code before them). *)
+(* C19 — OLD BEHAVIOUR.  This is the faithful model of the validation paths of /repo/flowpaths at commit a068bcc, i.e.
+   BEFORE the repairs 2df6a3b (k validated for every k-model), 59945c9 (source/sink edge lists), c9173c7 (coverage range
+   without constraints), 92ea36c (constraints validated before the greedy shortcut), 10a634a (MinErrorFlow string nodes),
+   3d7a4b5 (empty constraint in node mode) and 65c87ad (lower bound honours additional starts/ends).
+   It is kept only as documentation: ValidateOldRefuted.v proves, with concrete witnesses, that this old code was not
+   fail-closed.  The model of the current code is Validate.v; nothing here is extracted or compared with /repo. *)
 From Coq Require Import List Bool ZArith QArith Arith.
 Import ListNotations.
 Local Close Scope Q_scope.
 Local Open Scope bool_scope.
 
 (* ------------------------------------------------------------------ outcomes *)
-Inductive exn := EType | EOverflow | ESolverAPI.
-(* EType: a non-iterable item in an edge-list constraint (node mode); EOverflow / ESolverAPI: int(-inf) resp. the generic
-   Exception("Failed to add columns") when every weighted element is ignored (DESIGN #24) *)
+Inductive exn := EUnboundLocal | EType | EKey | EIndex | EOverflow | ECrash | ESolverAPI.
+(* ECrash: NetworkXError / KeyError / IndexError after the source/sink test was fooled (#20);
+   ESolverAPI: generic Exception("Failed to add columns") with an infinite bound (#24, float). *)
 Inductive outcome :=
 | Accept                 (* no exception at construction or in solve(); solved-or-not is the solver's business *)
 | RaiseValueError
@@ -40,12 +36,14 @@ Inductive wtype_tag := TInt | TFloat | TOther.
 Inductive origin_tag := OEdge | ONode | OOther.
 Inductive item_kind := IStr | IPair | ITriple | IInt. (* str / 2-tuple / 3-tuple / non-iterable *)
 Record item := { it_kind : item_kind; it_in_graph : bool }.
-Record constr := { c_is_list : bool; c_items : list item }.
+Record constr := { c_is_list : bool; c_items : list item;
+                   c_greedy_ok : bool }.              (* kFlowDecomp only: the greedy decomposition covers it enough *)
 Record input := {
   nodes_str : list bool;          (* per node: isinstance(node, str) *)
   n_edges : nat;
   acyclic : bool;
   has_source : bool; has_sink : bool;          (* base graph has a node of in-degree / out-degree 0 *)
+  src_fooled : bool; snk_fooled : bool;        (* DESIGN #20: a single-character node name drawn from "source_<id>" / "sink_<id>" *)
   origin : origin_tag; wtype : wtype_tag;
   elems : list elem;
   conserving : bool;               (* graphutils.check_flow_conservation on the caller's graph *)
@@ -133,12 +131,11 @@ Fixpoint first_bad_edge_item (l : list item) : step :=       (* _get_expanded_su
 Definition all_items (cs : list constr) := flat_map c_items cs.
 Definition expand_cons (cs : list constr) : step :=
   guard (negb (forallb c_is_list cs)) VE ;>
-  guard (existsb (fun c => is_nil (c_items c)) cs) VE ;>              (* "Every subpath constraint must have at least one element" *)
   match cs with
   | [] => None
   | c0 :: _ =>
     match c_items c0 with
-    | [] => None                                                       (* excluded by the guard above *)
+    | [] => Some (RaiseOther EIndex)                                   (* subpath_constraints[0][0] *)
     | it0 :: _ =>
       match it_kind it0 with
       | IStr => guard (negb (forallb (item_good IStr) (all_items cs))) VE     (* `node not in original_G.nodes` *)
@@ -150,8 +147,30 @@ Definition expand_cons (cs : list constr) : step :=
 (* after a successful expansion every constraint is a list of present edges; only emptiness survives *)
 Definition good_item := {| it_kind := IPair; it_in_graph := true |}.
 Definition expanded (cs : list constr) : list constr :=
-  map (fun c => {| c_is_list := true; c_items := map (fun _ => good_item) (c_items c) |}) cs.
+  map (fun c => {| c_is_list := true; c_items := map (fun _ => good_item) (c_items c); c_greedy_ok := c_greedy_ok c |}) cs.
 Definition internal_cons (i : input) := match origin i with ONode => expanded (cons i) | _ => cons i end.
+
+(* kFlowDecomp._get_solution_with_greedy (kflowdecomp.py:391-404): the constraints are scanned BEFORE they are
+   validated; `{(u,v): self.G[u][v]... for (u,v) in subpath}` *)
+Fixpoint greedy_items (l : list item) : step :=
+  match l with
+  | [] => None
+  | it :: r =>
+    match it_kind it with
+    | IPair => if it_in_graph it then greedy_items r else Some (RaiseOther EKey)
+    | ITriple => Some VE                       (* too many values to unpack: a ValueError by accident *)
+    | IInt => Some (RaiseOther EType)
+    | IStr => Some (RaiseOther EKey)           (* two-character names unpack into two absent nodes *)
+    end
+  end.
+Fixpoint greedy_scan (cs : list constr) : step :=
+  match cs with
+  | [] => None
+  | c :: r => match greedy_items (c_items c) with
+              | Some o => Some o
+              | None => if c_greedy_ok c then greedy_scan r else None      (* `return False` *)
+              end
+  end.
 
 (* ------------------------------------------------------------------ graph classes *)
 (* AbstractSourceSinkGraph.__init__ (abstractsourcesinkgraph.py:41-61) *)
@@ -162,13 +181,18 @@ Definition v_ssg_common (i : input) (sts ens : list bool) : step :=
 (* stDAG._pre_build_validate *)
 Definition v_stdag (i : input) (sts ens : list bool) : step :=
   v_ssg_common i sts ens ;> guard (negb (acyclic i)) VE.
-(* stDiGraph._post_build (stdigraph.py:54-59) *)
+(* stDiGraph._post_build (stdigraph.py:54-59); [fooled] reports that a missing source/sink went unnoticed *)
 Definition no_src (i : input) (sts : list bool) := negb (has_source i) && is_nil sts.
 Definition no_snk (i : input) (ens : list bool) := negb (has_sink i) && is_nil ens.
 Definition v_stdigraph (i : input) (sts ens : list bool) : step :=
   v_ssg_common i sts ens ;>
-  guard (no_src i sts) VE ;>
-  guard (no_snk i ens) VE ;> None.
+  guard (no_src i sts && negb (match origin i with ONode => false | _ => src_fooled i end)) VE ;>
+  guard (no_snk i ens && negb (match origin i with ONode => false | _ => snk_fooled i end)) VE ;> None.
+Definition fooled (i : input) (sts ens : list bool) :=
+  match origin i with
+  | ONode => false            (* the expanded node names end in ".0" / ".1": never a single character *)
+  | _ => (no_src i sts && src_fooled i) || (no_snk i ens && snk_fooled i)
+  end.
 
 Definition validate_stDAG (i : input) : outcome := v_stdag i (starts i) (ends i) ;; Accept.
 Definition validate_stDiGraph (i : input) : outcome := v_stdigraph i (starts i) (ends i) ;; Accept.
@@ -207,18 +231,16 @@ Definition front (i : input) (with_starts : bool) : step :=
 Definition v_maxflow (i : input) : step :=
   guard (bad_live i) VE ;>
   guard (all_ignored i) (RaiseOther (match wtype i with TInt => EOverflow | _ => ESolverAPI end)) ;> None.
-(* AbstractPathModelDAG.__init__ (abstractpathmodeldag.py:161-181): k, constraints, coverage *)
-Definition v_pathmodel (i : input) (k_bad : bool) : step :=
-  guard k_bad VE ;>
+(* AbstractPathModelDAG.__init__ (abstractpathmodeldag.py:160-188) *)
+Definition v_pathmodel (i : input) : step :=
   check_cons (internal_cons i) ;>
-  guard (negb (cov_ok i)) VE ;> None.
-(* AbstractWalkModelDiGraph.__init__ (abstractwalkmodeldigraph.py:108-139): k, constraints, coverage *)
+  guard (negb (is_nil (cons i)) && negb (cov_ok i)) VE ;> None.
+(* AbstractWalkModelDiGraph.__init__ (abstractwalkmodeldigraph.py:108-139) *)
 Definition v_walkmodel_k (i : input) (k_bad : bool) : step :=
   guard k_bad VE ;>
   check_cons (internal_cons i) ;>
-  guard (negb (cov_ok i)) VE ;> None.
-Definition k_bad (i : input) := negb (k_pos_int i).
-Definition v_walkmodel (i : input) : step := v_walkmodel_k i (k_bad i).
+  guard (negb (is_nil (cons i)) && negb (cov_ok i)) VE ;> None.
+Definition v_walkmodel (i : input) : step := v_walkmodel_k i (k_le0 i).
 
 (* the additional starts / ends handed to stDAG / stDiGraph: in node mode they were expanded (and thereby
    checked for membership) by get_expanded_additional_starts / _ends before *)
@@ -226,23 +248,22 @@ Definition st_of (i : input) := match origin i with ONode => map (fun _ => true)
 Definition en_of (i : input) := match origin i with ONode => map (fun _ => true) (ends i) | _ => ends i end.
 
 (* ------------------------------------------------------------------ DAG models *)
-(* kFlowDecomp.__init__ (kflowdecomp.py:123-259); [kb] = k is not a positive python int (MinFlowDecomp passes one).
-   The constraints are validated before the greedy shortcut, which therefore cannot raise any more. *)
-Definition kfd_core (i : input) (ign_empty : bool) (kb : bool) : outcome :=
+(* kFlowDecomp.__init__ (kflowdecomp.py:123-256); [kk] = k is a positive python int (MinFlowDecomp passes one) *)
+Definition kfd_core (i : input) (ign_empty : bool) (k_bad : bool) : outcome :=
   v_stdag i [] [] ;;
   guard (negb (wtype_ok i)) VE ;;
   guard (ign_empty && negb (conserving i)) VE ;;
   v_maxflow i ;;
-  guard kb VE ;;
-  check_cons (internal_cons i) ;;
-  v_pathmodel i kb ;;
+  guard k_bad VE ;;
+  (if ign_empty && conserving i then greedy_scan (internal_cons i) else None) ;;
+  v_pathmodel i ;;
   Accept.
 Definition validate_kFlowDecomp (i : input) : outcome :=
   match origin i with
   | ONode => v_nodeexp i [] [] false ;; expand_cons (cons i) ;;
              guard (negb (ign_ok_node i)) VE ;; guard (negb (ign_present i)) VE ;;
-             kfd_core i (ign_internal_empty i) (k_bad i)
-  | OEdge => front_edge i ;; kfd_core i (ign_internal_empty i) (k_bad i)
+             kfd_core i (ign_internal_empty i) (negb (k_pos_int i))
+  | OEdge => front_edge i ;; kfd_core i (ign_internal_empty i) (negb (k_pos_int i))
   | OOther => VE
   end.
 
@@ -266,13 +287,15 @@ Definition validate_MinFlowDecomp (i : input) : outcome :=
   end.
 
 (* kMinPathError / kLeastAbsErrors (kminpatherror.py:167-301, kleastabserrors.py:142-271): identical order of the
-   checks we model; k is validated by the base class *)
+   checks we model; after super().__init__ the encoders run `range(k)` and name rows with a loop variable *)
 Definition validate_kErrDAG (i : input) : outcome :=
   front i true ;;
   v_stdag i (st_of i) (en_of i) ;;
   guard (negb (wtype_ok i)) VE ;;
   v_maxflow i ;;
-  v_pathmodel i (k_bad i) ;;
+  v_pathmodel i ;;
+  guard (negb (k_is_int i)) (RaiseOther EType) ;;            (* range(self.k) *)
+  guard (k_le0 i) (RaiseOther EUnboundLocal) ;;              (* f"..._i={i}" after an empty `for i in range(k)` *)
   Accept.
 Definition validate_kMinPathError := validate_kErrDAG.
 Definition validate_kLeastAbsErrors := validate_kErrDAG.
@@ -293,7 +316,9 @@ Definition front_cover (i : input) : step :=
 Definition validate_kPathCover (i : input) : outcome :=
   front_cover i ;;
   v_stdag i (st_of i) (en_of i) ;;
-  v_pathmodel i (k_bad i) ;;
+  v_pathmodel i ;;
+  guard (negb (k_is_int i)) (RaiseOther EType) ;;           (* range(self.k) *)
+  guard (k_le0 i && has_live i) AcceptsButUnsolved ;;       (* zero paths cannot cover a non-ignored element *)
   Accept.
 
 (* MinPathCover (minpathcover.py:96-199): stDAG in the constructor; solve() builds kPathCover(G_input, cover_type, the
@@ -302,7 +327,7 @@ Definition validate_MinPathCover (i : input) : outcome :=
   front_cover i ;;
   v_stdag i (st_of i) (en_of i) ;;
   guard (negb (search_enters i)) AcceptsButUnsolved ;;
-  v_pathmodel i false ;;
+  v_pathmodel i ;;
   Accept.
 
 (* MinErrorFlow (minerrorflow.py:94-198, _encode_flow:244-256) *)
@@ -317,22 +342,28 @@ Definition validate_MinErrorFlow (i : input) : outcome :=
   end ;;
   (if acyclic i
    then v_stdag i (st_of i) (en_of i)
-   else guard (negb (all_str i)) VE) ;;                        (* 10a634a: the cyclic branch tests the node names itself *)
+   else None) ;;
   guard (negb (wtype_ok i)) VE ;;
   guard (missing_live i) VE ;;
   Accept.
 
 (* ------------------------------------------------------------------ cyclic models *)
+(* what happens after stDiGraph's source/sink test has been fooled: NetworkXError / KeyError / IndexError
+   somewhere in the model code, or an unsolved model — never a solved one, never a ValueError (DESIGN #20) *)
+Definition v_fooled (i : input) : step := guard (fooled i (st_of i) (en_of i)) (RaiseOther ECrash).
+
 (* kFlowDecompCycles (kflowdecompcycles.py:101-199) *)
-Definition kfdc_core (i : input) (sts ens : list bool) (ign_empty : bool) (kb : bool) : outcome :=
+Definition kfdc_core (i : input) (sts ens : list bool) (ign_empty : bool) : outcome :=
   v_stdigraph i sts ens ;;
   guard (negb (wtype_ok i)) VE ;;
   v_maxflow i ;;
-  v_walkmodel_k i kb ;;
-  guard (ign_empty && negb (conserving i)) AcceptsButUnsolved ;;     (* exact decomposition of a non-flow is infeasible (OPEN) *)
+  v_walkmodel i ;;
+  guard (negb (k_is_int i)) (RaiseOther EType) ;;            (* _encode_walks: range(self.k) *)
+  guard (fooled i sts ens) (RaiseOther ECrash) ;;            (* _encode_walks: self.G.successors(self.G.source) ... *)
+  guard (ign_empty && negb (conserving i)) AcceptsButUnsolved ;;     (* exact decomposition of a non-flow is infeasible *)
   Accept.
 Definition validate_kFlowDecompCycles (i : input) : outcome :=
-  front i true ;; kfdc_core i (st_of i) (en_of i) (ign_internal_empty i) (k_bad i).
+  front i true ;; kfdc_core i (st_of i) (en_of i) (ign_internal_empty i).
 
 (* kLeastAbsErrorsCycles / kMinPathErrorCycles (kleastabserrorscycles.py:127-250, kminpatherrorcycles.py:131-277) *)
 Definition validate_kErrCycles (i : input) : outcome :=
@@ -341,6 +372,8 @@ Definition validate_kErrCycles (i : input) : outcome :=
   guard (negb (wtype_ok i)) VE ;;
   v_maxflow i ;;
   v_walkmodel i ;;
+  guard (negb (k_is_int i)) (RaiseOther EType) ;;
+  v_fooled i ;;
   Accept.
 Definition validate_kLeastAbsErrorsCycles := validate_kErrCycles.
 Definition validate_kMinPathErrorCycles := validate_kErrCycles.
@@ -350,15 +383,19 @@ Definition validate_kPathCoverCycles (i : input) : outcome :=
   front i true ;;
   v_stdigraph i (st_of i) (en_of i) ;;
   v_walkmodel i ;;
+  guard (negb (k_is_int i)) (RaiseOther EType) ;;
+  v_fooled i ;;
   Accept.
 
-(* MinPathCoverCycles (minpathcovercycles.py:80-190): nothing but the front in the constructor; solve() ->
-   get_lowerbound_k -> stDiGraph(G, additional starts/ends) (65c87ad); then kPathCoverCycles(G_input, cover_type, k >= 1) *)
+(* MinPathCoverCycles (minpathcovercycles.py:80-178): nothing but the front in the constructor; solve() ->
+   get_lowerbound_k -> stDiGraph(G) WITHOUT the additional starts/ends; then kPathCoverCycles (edge mode, k >= 1) *)
 Definition validate_MinPathCoverCycles (i : input) : outcome :=
   front_cover i ;;
-  v_stdigraph i (st_of i) (en_of i) ;;
+  v_stdigraph i [] [] ;;                                   (* get_lowerbound_k: stDiGraph(self.G) *)
   guard (negb (search_enters i)) AcceptsButUnsolved ;;
+  v_stdigraph i (st_of i) (en_of i) ;;
   v_walkmodel_k i false ;;
+  v_fooled i ;;                                            (* the lower bound on a fooled graph does not crash *)
   Accept.
 
 (* MinFlowDecompCycles (minflowdecompcycles.py:107-265) *)
@@ -366,7 +403,7 @@ Definition no_usable (i : input) := forallb (fun e => e_ign e || missing_w (e_w 
 Definition validate_MinFlowDecompCycles (i : input) : outcome :=
   match origin i with
   | ONode =>
-    (* NodeExpandedDiGraph(G, attr, additional_starts=..., additional_ends=...) WITHOUT try_filling_in_missing_flow_attr (OPEN) *)
+    (* NodeExpandedDiGraph(G, attr, additional_starts=..., additional_ends=...) WITHOUT try_filling_in_missing_flow_attr *)
     v_nodeexp i (starts i) (ends i) false ;> expand_cons (cons i) ;>
     guard (negb (ign_ok_node i)) VE ;> guard (negb (ign_present i)) VE
   | OEdge =>
@@ -376,12 +413,13 @@ Definition validate_MinFlowDecompCycles (i : input) : outcome :=
   | OOther => Some VE
   end ;;
   guard (no_usable i) VE ;;                                (* max() of an empty sequence: a ValueError by accident *)
-  v_stdigraph i (st_of i) (en_of i) ;;                     (* solve(): get_lowerbound_k: stDiGraph(self.G, starts, ends) *)
+  v_stdigraph i [] [] ;;                                   (* solve(): get_lowerbound_k: stDiGraph(self.G) *)
   guard (negb (search_enters i)) AcceptsButUnsolved ;;
-  (* kFlowDecompCycles(G_internal, k = i >= 1, edge mode) *)
+  (* kFlowDecompCycles(G_internal, k = i >= 1, edge mode); starts/ends are empty here in both modes *)
   guard (negb (wtype_ok i)) VE ;;
   v_maxflow i ;;
   v_walkmodel_k i false ;;
+  guard (fooled i [] []) (RaiseOther ECrash) ;;
   guard (ign_internal_empty i && negb (conserving i)) AcceptsButUnsolved ;;
   Accept.
 
